@@ -407,6 +407,11 @@ def readRanges (cfg : C01.Cfg) (ix d : Desc) (id : String) : Except C14.Err (Lis
         | none => .error .inconsistent
         | some zt => .ok (C14.instRangesOf zt)
 
+/-- `Ring.GetSubringForOperationStates(op)`: the instances of the LATEST descriptor whose state the operation
+accepts (`op.IsInstanceInStateHealthy`; `healthy` = the states of the operation's mask). A pure function of the
+latest descriptor: never cached, no kept index involved. `subGet` is `Get` on the returned sub-ring. -/
+def readOpSub (d : Desc) (healthy : List State) : Desc := d.filter fun i => healthy.contains i.state
+
 /-- `Ring.Zones()` -/
 def readZones (ix : Desc) : List String := C01.ringZones ix
 
